@@ -56,10 +56,10 @@ def partition_cases(draw, algs=None, presentations=None, oracle=False, max_bins=
     cap = 200 if alg == "ilp" else None
     profs = profiles
     if alg == "ilp":
-        profs = [p for p in (profiles or S.PROFILES) if p not in ("large", "huge")]
+        profs = [p for p in (profiles or S.PROFILES) if p not in ("large", "huge", "near-equal-large")]
     if alg == "multifit":
         # multifit bisects on floats: keep sums exactly representable with headroom
-        profs = [p for p in (profiles or S.PROFILES) if p != "huge"]
+        profs = [p for p in (profiles or S.PROFILES) if p not in ("huge", "near-equal-large")]
     profile, values = draw(S.values_lists(1, n_max, numbins=k, profiles=profs, max_value=cap))
     case = {"alg": alg, "values": values, "numbins": k, "pres": draw(S.presentations(presentations)),
             "nseed": draw(st.integers(0, 5)), "profile": profile}
